@@ -81,7 +81,7 @@ def snapshot(obj, depth=0):
                 tuple(sorted(obj.indexes)) if hasattr(obj, "indexes") else ())
     if isinstance(obj, xr.Dataset):
         return ("Dataset", tuple(obj.sizes.items()), snap_attrs(obj.attrs), repr(sorted(obj.encoding.items())),
-                tuple((k, tuple(v.dims), _snap_var(v.variable)) for k, v in obj.variables.items()),
+                tuple((k, tuple(v.dims), _snap_var(v)) for k, v in obj.variables.items()),
                 tuple(obj.data_vars), tuple(obj.coords))
     if isinstance(obj, np.ndarray):
         base = obj.base if isinstance(obj.base, np.ndarray) else None
